@@ -141,16 +141,24 @@ def plain(cfg):
 
 # -------------------------------------------------------------- classify --
 _INCLUDE = re.compile(r'\s*%include\s+\S')
+_BS_SPACE = re.compile(r'\\[ \t]+$')
 
 
-def classify(processed):
-    """Mechanism key from the dumped file (not from values)."""
+def classify(processed, files):
+    """Mechanism key from the dumped file and the sources (no values)."""
     lines = processed.split('\n')
     bs = [ln for ln in lines if ln.endswith('\\')]
     if bs:
-        if any('#' in ln for ln in bs):
+        # a source line ending in backslash + white space explains it
+        src = [ln for text in files.values() for ln in text.split('\n')
+               if _BS_SPACE.search(ln)]
+        if src and all('#' in ln for ln in src):
             return 'C36:dump-strips-space-after-backslash:in-comment'
-        return 'C36:dump-strips-space-after-backslash:in-continued-line'
+        if src and not any('#' in ln for ln in src):
+            return 'C36:dump-strips-space-after-backslash:in-continued-line'
+        if src:
+            return 'C36:dump-strips-space-after-backslash:mixed'
+        return 'C36:dump-line-ends-with-backslash'
     if any(_INCLUDE.match(ln) for ln in lines):
         return 'C36:include-line-in-dump'
     if lines and lines[0].lower().startswith('#!jinja2'):
@@ -246,7 +254,7 @@ def check_file(ctx, rng, serial):
                 os.chdir(cwd)
         except Exception as exc:
             ctx.violation(
-                classify(processed),
+                classify(processed, files),
                 f'the processed file cylc wrote cannot be parsed back: '
                 f'{type(exc).__name__}: {str(exc)[:160]}', desc)
             return
@@ -255,7 +263,7 @@ def check_file(ctx, rng, serial):
         if d:
             path, what, x, y = d
             ctx.violation(
-                classify(processed),
+                classify(processed, files),
                 f'item {list(path)} differs ({what}): source gives {x}, '
                 f'processed file gives {y}',
                 {**desc, 'path': list(path), 'difference': what,
